@@ -54,8 +54,8 @@ theorem fingerprints_expected : fingerprints = [
   ("Data.createIndexGroupIfNeeded", "d412d288cf7f32ea"),
   ("Data.DeleteShardGroup", "b25803af2fd67a01"),
   ("Data.DeleteIndexGroup", "78f8575f36c11a73"),
-  ("Data.pruneShardGroups", "487f7a586a1c3d4b"),
-  ("Data.pruneIndexGroups", "05b6cf3114359e5a"),
+  ("Data.pruneShardGroups", "022bc8afbeaa4bdd"),
+  ("Data.pruneIndexGroups", "1f8c89266fab6f12"),
   ("Data.SchemaClean", "19041c8595af1489"),
   ("ShardGroupInfos.Less", "71fd468f922d51a9"),
   ("IndexGroupInfos.Less", "bcbb215204a629c9"),
